@@ -2,11 +2,13 @@
 #include <stdio.h>
 #include <stdlib.h>
 #include <string.h>
+#include <unistd.h>
 #include "rt.h"
 #include "replay.h"
 
 FILE *rp_replay_out;
 int rp_diverged;
+int rp_in_prefix;
 static int nontrivial_flag;
 void rp_mark_nontrivial (void) { nontrivial_flag = 1; }
 
@@ -46,10 +48,24 @@ static void save_tour (const struct lines *l, const char *dir, const char *prop,
 	fclose (f);
 }
 
+/* the first few behaviours that leave the specification are saved up to (not including) the step at which they did:
+   the caller continues them with many random schedules (rp_explore_from), judged by oracles only */
+static long ndivsaved;
+static void save_prefix (const struct lines *l, int n, const char *dir, const char *prop) {
+	char path[512]; FILE *f; int i;
+	if (!dir || ndivsaved >= 6 || n <= 0) return;
+	snprintf (path, sizeof path, "%s/%s_div%d_%ld.sched", dir, prop, (int) getpid (), ++ndivsaved);
+	f = fopen (path, "w");
+	if (!f) return;
+	for (i = 0; i < n && i < l->n; i++) fputs (l->v[i], f);
+	fputs ("E\n", f);
+	fclose (f);
+	printf ("DIVFILE %s\n", path);
+}
 #define FLUSH_PENDING() do { if (have_pending && !diverged) { \
 		h->obs (got, sizeof got); \
 		if (strcmp (got, pend_exp) != 0) { \
-			diverged = 1; st->mismatches++; \
+			diverged = 1; st->mismatches++; save_prefix (&cur, cur.n - (in_flush_at_end ? 0 : 1), viol_dir, prop); \
 			if (!st->first_mismatch[0]) \
 				snprintf (st->first_mismatch, sizeof st->first_mismatch, \
 					  "tour %ld step %ld label %s thread %d: state after the step differs: spec {%s} code {%s}", tour_id, pend_step, pend_label, pend_actor, pend_exp, got); \
@@ -60,7 +76,7 @@ int rp_run (FILE *sched, const struct rp_harness *h, struct rp_stats *st, const 
 	char *line = NULL; size_t cap = 0;
 	struct lines cur = { 0, 0, 0 };
 	char prev[1024] = "", got[1024], why[256];
-	int in_tour = 0, diverged = 0, have_pending = 0, pend_actor = 0, free_sched = 0;
+	int in_tour = 0, diverged = 0, have_pending = 0, pend_actor = 0, free_sched = 0, in_flush_at_end = 0, force_finish = 0;
 	long pend_step = 0;
 	char pend_exp[1024] = "", pend_label[64] = "";
 	long tour_id = 0, stepno = 0;
@@ -75,7 +91,7 @@ int rp_run (FILE *sched, const struct rp_harness *h, struct rp_stats *st, const 
 			{ char tmp[1200]; snprintf (tmp, sizeof tmp, "T %ld %s\n", tour_id, init); push (&cur, tmp); }
 			rt_reset ();
 			h->setup (init);
-			in_tour = 1; diverged = 0; free_sched = 1; stepno = 0; nontrivial_flag = 0; prev[0] = 0; have_pending = 0;
+			in_tour = 1; diverged = 0; free_sched = 1; stepno = 0; force_finish = strstr (init, "cont=1") != NULL; nontrivial_flag = 0; prev[0] = 0; have_pending = 0;
 			st->tours++;
 		} else if (line[0] == 'S' && in_tour) {
 			int actor = 0, off = 0;
@@ -99,7 +115,7 @@ int rp_run (FILE *sched, const struct rp_harness *h, struct rp_stats *st, const 
 				choice = (t < rt_nthreads ()) ? h->pre (actor, label, prev, exp, why, sizeof why) : -1;
 				if (t >= rt_nthreads () || !rt_enabled (t)) {
 					if (!diverged) {
-						diverged = 1; st->mismatches++;
+						diverged = 1; st->mismatches++; save_prefix (&cur, cur.n - 1, viol_dir, prop);
 						if (!st->first_mismatch[0])
 							snprintf (st->first_mismatch, sizeof st->first_mismatch,
 								  "tour %ld step %ld label %s: thread %d is not runnable in the real code (state %d, parked at %s)",
@@ -110,7 +126,7 @@ int rp_run (FILE *sched, const struct rp_harness *h, struct rp_stats *st, const 
 				}
 				if (choice < 0 && label[0] != '*') {
 					if (!diverged) {
-						diverged = 1; st->mismatches++;
+						diverged = 1; st->mismatches++; save_prefix (&cur, cur.n - 1, viol_dir, prop);
 						if (!st->first_mismatch[0])
 							snprintf (st->first_mismatch, sizeof st->first_mismatch, "tour %ld step %ld label %s thread %d: %s", tour_id, stepno, label, actor, why);
 					}
@@ -130,10 +146,12 @@ int rp_run (FILE *sched, const struct rp_harness *h, struct rp_stats *st, const 
 				pend_actor = actor; pend_step = stepno;
 			}
 		} else if (line[0] == 'E' && in_tour) {
+			in_flush_at_end = 1;
 			FLUSH_PENDING ();
+			in_flush_at_end = 0;
 			in_tour = 0;
 			/* a schedule recorded from a free-running exploration (labels "*") ends the way that exploration did: run everything to completion */
-			h->finish (diverged || (free_sched && stepno > 0));
+			h->finish (diverged || force_finish || (free_sched && stepno > 0));
 			if (diverged) st->diverged_tours++; else st->matched_tours++;
 			if (nontrivial_flag) st->nontrivial++;
 			if (rt_first_violation ()) {
@@ -156,6 +174,78 @@ int rp_run (FILE *sched, const struct rp_harness *h, struct rp_stats *st, const 
 	free (line);
 	clear (&cur);
 	return 0;
+}
+
+/* Continue one saved prefix with `runs` random schedules.  The prefix is replayed without comparison (labels only choose the
+   thread and, through pre(), the value a client step delivers); then uniformly random choices among the enabled threads, the
+   clock advancing when nobody can run; finally h->finish (1).  Returns the number of runs in which an oracle fired. */
+long rp_explore_from (FILE *sched, const struct rp_harness *h, long runs, unsigned seed, const char *viol_dir, const char *prop, int (*done) (void), long max_steps) {
+	struct lines pre = { 0, 0, 0 };
+	char *line = NULL; size_t cap = 0;
+	char init[4096] = "";
+	long r, viols = 0, steps_total = 0;
+	unsigned long long rng;
+	while (getline (&line, &cap, sched) > 0) {
+		if (line[0] == 'T' && !init[0]) { char *q = line + 1; while (*q == ' ') q++; strtol (q, &q, 10); while (*q == ' ') q++; q[strcspn (q, "\n")] = 0; snprintf (init, sizeof init, "%s", q); }
+		else if (line[0] == 'S') push (&pre, line);
+		else if (line[0] == 'E') break;
+	}
+	free (line);
+	for (r = 0; r < runs; r++) {
+		char *out = NULL; size_t ol = 0; FILE *of = open_memstream (&out, &ol);
+		int i; long n = 0;
+		char why[256];
+		rng = 88172645463325252ULL ^ ((unsigned long long) seed * 0x9E3779B97F4A7C15ULL) ^ ((unsigned long long) r * 0xD1B54A32D192ED03ULL);
+		rt_reset ();
+		h->setup (init);
+		fprintf (of, "T %ld %s%s\n", r + 1, strstr (init, "cont=1") ? "" : "cont=1 ", init);
+		rp_diverged = 1; rp_in_prefix = 1;
+		for (i = 0; i < pre.n && !rt_first_violation (); i++) {
+			int actor = 0, off = 0, choice; char label[64];
+			if (sscanf (pre.v[i], "S %d %63s %n", &actor, label, &off) < 2) continue;
+			if (actor == 0) { char lb[64]; snprintf (lb, sizeof lb, "%s", label); h->env (lb, ""); fprintf (of, "S 0 %s *\n", label); continue; }
+			if (strlen (label) > 2 && strcmp (label + strlen (label) - 2, "_l") == 0) continue;
+			if (actor - 1 >= rt_nthreads () || !rt_enabled (actor - 1)) break;
+			choice = h->pre (actor, label, "", "", why, sizeof why);
+			rt_grant_choice (actor - 1, choice < 0 ? 0 : choice);
+			if (h->post) h->post (actor, label);
+			fprintf (of, "S %d %s *\n", actor, label);
+		}
+		rp_in_prefix = 0;
+		while (!rt_first_violation () && n < max_steps && !(done ? done () : rt_all_done ())) {
+			int cand[RT_MAXT], nc = 0, t, nt = rt_nthreads ();
+			for (i = 0; i < nt; i++) if (rt_enabled (i)) cand[nc++] = i;
+			rng ^= rng << 13; rng ^= rng >> 7; rng ^= rng << 17;
+			if (nc == 0 || (rng >> 11) % 24 == 0) {
+				if (rt_timed_waiter_pending ()) { h->env ("Tick", ""); fprintf (of, "S 0 Tick *\n"); n++; continue; }
+				if (nc == 0) break;
+			}
+			t = cand[(rng >> 17) % (unsigned) nc];
+			rt_grant (t);
+			if (h->post) h->post (t + 1, "*");
+			fprintf (of, "S %d * *\n", t + 1);
+			n++;
+		}
+		steps_total += n;
+		if (!rt_first_violation ()) h->finish (1);
+		fclose (of);
+		if (rt_first_violation ()) {
+			const struct rt_viol *v = rt_first_violation ();
+			char path[512] = "-";
+			viols++;
+			if (viol_dir && viols <= 3) {
+				FILE *o;
+				snprintf (path, sizeof path, "%s/%s_cont%d_%u_%ld.sched", viol_dir, prop, (int) getpid (), seed, viols);
+				o = fopen (path, "w");
+				if (o) { fputs (out, o); fputs ("E\n", o); fclose (o); }
+			}
+			printf ("VIOL %s|%s|thread %d|step %ld|%s|%s\n", v->oracle, v->fn, v->tid, v->step, path, v->msg);
+		}
+		free (out);
+	}
+	printf ("STATS tours=%ld steps=%ld matched=%ld diverged=0 mismatches=0 violations=%ld nontrivial=%ld\n", runs, steps_total, runs - viols, viols, runs);
+	clear (&pre);
+	return viols;
 }
 
 void rp_print_stats (const struct rp_stats *st, FILE *out) {
